@@ -7,7 +7,7 @@ and - thorough - all 65,536 class/ID pairs; many payload lengths incl. 0 and 65,
 bitfield setting); serialize/msg_cls/msg_id/length/payload/eval(repr) recorded and judged by T_Frame.
 """
 
-from ..common import frame
+from ..common import STEER_TARGETS, frame, steer
 from ..drivers import frames
 from . import replay_one, run_batch
 
@@ -87,6 +87,13 @@ def run(ctx):
                     fr = frame(c, i, pl).hex()
                     for (m, p) in ((0, 1), (1, 0), (3, 1)):
                         yield ("c01", {"f": fr, "mode": m, "pbf": p, "validate": 1})
+        # frames whose CHECKSUM bytes look like something else (line ends, sync characters, preambles): steered through the last two payload bytes
+        for (c, i) in ((0x77, 0x01), (0x06, 0x08), (0x01, 0x22), (0x04, 0x02), (0x0A, 0x04)):
+            for n in (2, 6, 20, 220):
+                for tgt in STEER_TARGETS:
+                    fr = frame(c, i, steer(c, i, rb(n), tgt)).hex()
+                    for (m, p, v) in ((0, 1, 1), (0, 0, 0), (1, 1, 0), (3, 1, 1)):
+                        yield ("c01", {"f": fr, "mode": m, "pbf": p, "validate": v})
         # very long payloads (length field up to ffff)
         big = [65535, 65534, 40000, 32769, 32768, 32767, 4096, 1000, 258, 257, 256, 255, 254]
         for n in big if ctx.thorough else [65535, 32768, 32767, 4096, 257, 256, 255]:
@@ -103,7 +110,7 @@ def run(ctx):
 
     def gen_lay():
         for l in lays:
-            for pat in ("rand", "ones") if not ctx.thorough else ("rand", "ones", "zero", "count", "rand"):
+            for pat in ("rand", "ones", "small", "small") if not ctx.thorough else ("rand", "ones", "zero", "count", "rand", "small", "small", "small", "small"):
                 P = walk.fill(l, pat, rng, cfgdb)
                 fr = frame(l["cls"], l["id"], P).hex()
                 yield ("c01", {"f": fr, "mode": l["m"], "pbf": 1 if l["pbf"] else 0, "validate": 1})
